@@ -256,12 +256,48 @@ func returnsVar(body ast.Node, v string, ft *ast.FuncType) bool {
 // isErrTest: `v != nil` (or `v != ErrSomething`: the remaining case is handled by the code below it)
 func isErrTest(cond ast.Expr, v string) bool {
 	b, ok := cond.(*ast.BinaryExpr)
+	if ok && b.Op == token.LOR {
+		// `v != nil || …`: the body runs whenever the error is set
+		return isErrTest(b.X, v) || isErrTest(b.Y, v)
+	}
 	if !ok || b.Op != token.NEQ {
 		return false
 	}
 	x, ok1 := b.X.(*ast.Ident)
 	_, ok2 := b.Y.(*ast.Ident)
 	return ok1 && ok2 && x.Name == v
+}
+
+// onlySetsWhenNil: `if v == nil && … { v = … }` (every statement of the body assigns v): the
+// statement can only replace a nil error by a non-nil one.
+func onlySetsWhenNil(ifs *ast.IfStmt, v string) bool {
+	var guarded func(e ast.Expr) bool
+	guarded = func(e ast.Expr) bool {
+		b, ok := e.(*ast.BinaryExpr)
+		if !ok {
+			return false
+		}
+		if b.Op == token.LAND {
+			return guarded(b.X) || guarded(b.Y)
+		}
+		x, ok1 := b.X.(*ast.Ident)
+		y, ok2 := b.Y.(*ast.Ident)
+		return b.Op == token.EQL && ok1 && ok2 && x.Name == v && y.Name == "nil"
+	}
+	if !guarded(ifs.Cond) || len(ifs.Body.List) == 0 {
+		return false
+	}
+	for _, st := range ifs.Body.List {
+		as, ok := st.(*ast.AssignStmt)
+		if !ok || as.Tok != token.ASSIGN || len(as.Lhs) != 1 {
+			return false
+		}
+		id, ok := as.Lhs[0].(*ast.Ident)
+		if !ok || id.Name != v {
+			return false
+		}
+	}
+	return true
 }
 
 // breaksToReturn: body is `{ break }` inside a loop, v is a named result, and after the loop the
@@ -365,6 +401,9 @@ func (a *wsAnalyzer) flows(p wsParents, at ast.Stmt, v string) (bool, string) {
 		case *ast.ReturnStmt:
 			return true, "assigned-then-returned"
 		case *ast.IfStmt:
+			if st.Init == nil && st.Else == nil && onlySetsWhenNil(st, v) {
+				continue // `if v == nil && … { v = … }`: an error already set passes through unchanged
+			}
 			if st.Init == nil && isErrTest(st.Cond, v) && returnsVar(st.Body, v, ft) {
 				return true, "if-err-return"
 			}
